@@ -834,7 +834,14 @@ static Verdict judge_solve(const Stage& S, const StageRef& R, const SolveOut& so
       hx::checked();
       if (w.kind == 'p') { bool neg = false; for (size_t j = 0; j < w.v.size(); ++j) if (w.v[j] < 0) neg = true; if (neg) { what = "negative_value"; why = "solution node yields a negative variable value"; } }
       if (what.empty()) {
-        if (w.kind == 'b' && rv.st == ilp::OPT) { what = "bottom_but_feasible"; cls = bottom_class(S, rv.pv); why = "reference point " + showz(rv.pt) + " satisfies every constraint"; }
+        if (w.kind == 'b' && rv.st == ilp::OPT) {
+          what = "bottom_but_feasible"; cls = bottom_class(S, rv.pv); why = "reference point " + showz(rv.pt) + " satisfies every constraint";
+          if (S.big >= 0) for (size_t o = 0; o < R.vals.size(); ++o) {      // does feasibility depend on the residue of the big parameter?
+            const RefVal& ov = R.vals[o]; if (o == vi || !ov.ctx || ov.mclass != 2 || ov.st != ilp::INFEAS) continue;
+            bool same_small = true; for (int d = 0; d < S.dim; ++d) if (d != S.big && ov.pv[d] != rv.pv[d]) same_small = false;
+            if (same_small) { cls = "feasibility-depends-on-residue-of-big-parameter"; break; }
+          }
+        }
         else if (w.kind == 'p' && rv.st == ilp::INFEAS) {
           if (point_ok(S, rv.pv, w.v)) { hx::violation("harness.bug.reference_infeasible_but_tree_point_valid", S.text() + " at " + showpv(S, rv.pv) + " tree=" + showz(w.v)); v.bad = true; v.what = "harness"; return v; }
           what = "point_but_infeasible"; why = "no non-negative integer point exists";
